@@ -323,10 +323,10 @@ Definition item_bits (it : item) : option Z :=
   match it with IFp f => Some (fbits f) | IDb d => Some (dwidth d) | IOther => None end.
 Definition is_db (it : item) : bool := match it with IDb _ => true | _ => false end.
 
-(* astype to the vector dtype of a fingerprint class (bool: non-zero; uint16 for non-negative integers < 2^16 and
-   float64: unchanged) *)
+(* astype to the vector dtype of a fingerprint class as the dispatcher uses it: to bool (non-zero) for Tanimoto/Dice,
+   otherwise to the fingerprint's own dtype (uint16 of integer counts < 2^16, float64), which changes nothing *)
 Definition cast_dtype (k : kind) (v : Q) : Q :=
-  match k with KBit => b01 (nz v) | KCount => qtrunc v | KFloat => v end.
+  match k with KBit => b01 (nz v) | _ => v end.
 
 (* fprint.to_vector(sparse=True, dtype=...): one entry per index, in index order *)
 Definition fp_row (k : kind) (a : fp) : row :=
@@ -401,13 +401,18 @@ Fixpoint list_close {A B} (c : A -> B -> bool) (a : list A) (b : list B) : bool 
   | _, _ => false
   end.
 
-(* implementation observation: a scalar float or a matrix of floats (exact rationals) *)
-Inductive obsv := OScalar (f : Q) | OMatrix (m : list (list Q)).
+(* implementation observation: a scalar float or a matrix of floats (exact rationals); in a masked matrix the entries
+   None are not compared (Pearson with a constant non-zero operand: 0/0, decided by round-off in the implementation) *)
+Inductive obsv := OScalar (f : Q) | OMatrix (m : list (list Q)) | OMasked (m : list (list (option Q))).
+
+Definition opt_close (tol : Q) (f : option Q) (v : value) : bool :=
+  match f with None => true | Some x => value_close tol x v end.
 
 Definition mres_close (tol : Q) (o : obsv) (r : mres) : bool :=
   match o, r with
   | OScalar f, Scalar v => value_close tol f v
   | OMatrix fm, Matrix vm => list_close (list_close (value_close tol)) fm vm
+  | OMasked fm, Matrix vm => list_close (list_close (opt_close tol)) fm vm
   | _, _ => false
   end.
 
